@@ -43,15 +43,18 @@ ASSUMPTIONS = [
   'held until answered, `state` is Closed after Die / failed Open / Close()',
   'a timeout takes the connection back although it is still busy (sink-stack semantics); the connection is '
   'then considered free by the pool and by the oracle',
-  'nothing is required of a pool after it closed (dead connection released, owner Close(), or state Closed) '
-  'except C07.closeFailsWaiters',
+  'after a pool closed (dead connection released, owner Close(), or state Closed), also when its owner opens it '
+  'again, only C07.closeFailsWaiters, C07.exclusive and C07.max in the form "connections lent or being opened '
+  'at once <= max_watermark" are judged (connections a closed pool gives up without closing are not counted)',
   'requests that timed out while queued may still occupy queue slots (a max-waiters error is accepted then)',
   'TLC exhaustive only within the stated constants (requests, connections, deaths, timeouts)',
 ]
 RULE = {'C07': 'seeded random histories (arrivals with immediate/deferred/failed opens, answers, timeouts '
                'simulated or by the real ClientTimeoutSink, deaths, owner Close, partial scheduler steps) over '
                '(min,max,queue) in {0,1,2}x{1,2,3}x{0,1,2,unbounded}, systematic enumeration of all short '
-               'suffixes over an 11-symbol alphabet after a saturating prefix, and TLC-simulated behaviours; every '
+               'suffixes over an 11-symbol alphabet after a saturating prefix, a family of close histories (dead connection '
+               'released / owner Close() with cached connections, Close()/Open() cycles, bursts of max+2 concurrent '
+               'requests afterwards), and TLC-simulated behaviours; every '
                'history ends with drain + Stop + probe burst of max_watermark requests + Stop; non-trivial = at '
                'least 3 arrivals and at least one of: a request had to wait, timeout, death, deferred or failed '
                'open; distinct by canonical event list'}
@@ -76,16 +79,16 @@ ORIG_MODELS = [
 def models(prop, tier):
   if tier == 'quick':
     return [
-      dict(module='WatermarkPool', cfg='WatermarkPool_fix.cfg', coverage=True, may_be_unused=['CloseExt'],
+      dict(module='WatermarkPool', cfg='WatermarkPool_fix.cfg', coverage=True, may_be_unused=['CloseExt', 'Reopen'],
            what='repaired code: (min,max,queue) in {0,1}x{1,2}x{0,1,2}, 4 requests, 2 deaths/failed opens, 2 timeouts'),
       dict(module='WatermarkPool', cfg='WatermarkPool_close.cfg', coverage=True,
-           what='repaired code + owner Close(): (min,max,queue) in {0,1}x{1,2}x{1,2}, 3 requests, 1 death, 2 timeouts'),
+           what='repaired code + owner Close() and re-Open(): (min,max,queue) in {1,2}x{1,2}x{1,2}, 3 requests, 1 death, 2 timeouts'),
     ] + ORIG_MODELS
   return [
-    dict(module='WatermarkPool', cfg='WatermarkPool_fix.cfg', coverage=True, may_be_unused=['CloseExt'],
+    dict(module='WatermarkPool', cfg='WatermarkPool_fix.cfg', coverage=True, may_be_unused=['CloseExt', 'Reopen'],
          what='repaired code: (min,max,queue) in {0,1}x{1,2}x{0,1,2}, 4 requests, 2 deaths/failed opens, 2 timeouts'),
     dict(module='WatermarkPool', cfg='WatermarkPool_close.cfg', coverage=True,
-         what='repaired code + owner Close(): (min,max,queue) in {0,1}x{1,2}x{1,2}, 3 requests, 1 death, 2 timeouts'),
+         what='repaired code + owner Close() and re-Open(): (min,max,queue) in {1,2}x{1,2}x{1,2}, 3 requests, 1 death, 2 timeouts'),
     dict(module='WatermarkPool', cfg='WatermarkPool_big.cfg', timeout=3000, heap='24g',
          what='repaired code: (min,max,queue) in {0,1,2}x{1,2,3}x{0,1,2,unbounded}, 4 requests, 2 deaths, 3 timeouts'),
   ] + ORIG_MODELS
@@ -370,6 +373,14 @@ class _World(object):
     self.guarded(self.pool.Close)
     return True
 
+  def reopen_pool(self):
+    """The owner opens the pool again after a close (ResurrectorSink.Close()/Open() keep the object)."""
+    if self.pst() != 'closed':
+      return False
+    self.log({'e': 'PoolOpen'})
+    self.guarded(self.pool.Open)     # SafeLink: _OpenImpl runs in a spawned greenlet
+    return True
+
   def quiet(self, name='Q'):
     self.loop.settle()
     self.log({'e': name, 'pst': self.pst()})
@@ -444,6 +455,12 @@ def _apply(w, op):
     return bool(c) and w.die(c, op[2])
   elif k == 'C':
     return w.close_pool()
+  elif k == 'R':
+    w.mode = 'ok'
+    return w.reopen_pool()
+  elif k == 'xl':       # the connection working on the k-th request in flight dies
+    x = _pick(w.inflight(), op[1])
+    return bool(x) and w.die(x[1], op[2])
   elif k == 's':
     loop.step(op[1])
   elif k == 'cb':
@@ -529,7 +546,7 @@ def _rand_script(rng, cfg):
     elif x < 0.84:
       ops.append(['x', rng.randint(0, 2), 1 if rng.random() < 0.5 else 0])
     elif x < 0.86:
-      ops.append(['C'])
+      ops.append(['C'] if rng.random() < 0.6 else ['R'])
     elif x < 0.93:
       ops.append(['s', rng.randint(1, 3)])
     else:
@@ -595,12 +612,74 @@ def _systematic(tier, seed):
   return out
 
 
+def _close_family(rng, tier):
+  """Histories around a Close() of a pool that still has cached connections, followed by more traffic
+  on the same pool object: dead connection found on release with min_watermark >= 2, owner Close() of an
+  idle or busy pool, owner Close()/Open() cycles between bursts of max_watermark + 2 concurrent requests."""
+  out = []
+  reps = 2 if tier == 'quick' else 12
+  for mn, mx in [(2, 2), (2, 3), (3, 3), (3, 2), (1, 1), (1, 2), (2, 1), (0, 1), (0, 2), (1, 3)]:
+    for q in (1, UNB):
+      for variant in ('dead', 'dead-reopen', 'idle', 'idle-reopen', 'busy-reopen', 'cycles'):
+        for rep in range(reps):
+          ops = []
+          r = [0]
+
+          def burst(n, mode='ok'):
+            for _ in range(n):
+              r[0] += 1
+              ops.append(['A', r[0], mode, 0])
+              ops.append(['run'])
+
+          def answer_all():
+            for _ in range(mx + 3):
+              ops.append(['d', 0, 'ok'])
+              ops.append(['run'])
+
+          warm = min(mx, max(mn, 1))
+          burst(warm)                      # establishes `warm` connections concurrently
+          answer_all()                     # min(warm, min_watermark) of them stay cached
+          if variant.startswith('dead'):
+            burst(1)
+            ops.append(['xl', 0, rng.randint(0, 1)])
+            ops.append(['d', 0, 'err'])    # released dead: the pool closes, cached sinks are flushed
+            ops.append(['run'])
+            if variant == 'dead-reopen':
+              ops += [['R'], ['run']]
+          elif variant.startswith('idle'):
+            ops += [['C'], ['run']]
+            if variant == 'idle-reopen':
+              ops += [['R'], ['run']]
+          elif variant == 'busy-reopen':
+            burst(1)
+            ops += [['C'], ['run'], ['R'], ['run']]
+          burst(mx + 2, 'wait' if rep % 2 else 'ok')    # more than max_watermark concurrent requests
+          for _ in range(3):
+            ops.append(['o', 0, 1])
+            ops.append(['run'])
+          ops.append(['Q'])
+          if variant == 'cycles' or rep >= 2:
+            for _ in range(2 if variant == 'cycles' else 1):
+              for _ in range(rng.randint(0, mx + 2)):
+                ops.append(['d', rng.randint(0, 2), 'ok'])
+                ops.append(['run'])
+              ops += [['C'], ['run'], ['R']]
+              if rng.random() < 0.7:
+                ops.append(['run'])
+              burst(mx + 2)
+              ops.append(['Q'])
+          out.append({'cfg': {'min': mn, 'max': mx, 'qlen': q}, 'tmo': 'sim', 'ops': ops, 'fin': 1,
+                      'word': 'close:' + variant})
+  return out
+
+
 def cases(prop, tier, seed):
   rng = random.Random(7000003 * int(seed) + 7)
   n = 1000 if tier == 'quick' else 20000
   out = []
   for i in range(n):
     out.append(_rand_script(rng, CONFIGS[(i + int(seed)) % len(CONFIGS)]))
+  out.extend(_close_family(rng, tier))
   out.extend(_systematic(tier, seed))
   return out
 
@@ -757,6 +836,8 @@ def _replay_one(script):
       ok = conn(params[0]) is not None and w.die(conn(params[0]), 0)
     elif name == 'CloseExt':
       ok = w.close_pool()
+    elif name == 'Reopen':
+      ok = w.reopen_pool()
     else:
       raise ValueError('unknown action %r' % (act,))
     steps += 1
